@@ -9,6 +9,7 @@
   violation whatever the model says).
 -/
 import NR.Front
+import NR.Proofs.Front
 namespace NR.Props.C16
 open NR.Front
 
@@ -55,7 +56,25 @@ theorem c16_vehicle_tables (nVehicles nTypes : Nat) (hle : nTypes ≤ nVehicles)
   · intro i hi; exact hi
   · intro h hs; rw [tableSafe_iff] at hs; omega
 
+/-- The list form of `duration_matrix`: an accepted id assignment gives EVERY vehicle a matrix (no vehicle is left to a
+`speed` it may not have), and names no id that is not a vehicle. -/
+theorem c16_accepted_matrix_ids_cover_every_vehicle (vehicles : List String) (mats : List (List String))
+    (h : validateIds vehicles mats = true) : ∀ v ∈ vehicles, (matrixOf mats v).isSome = true :=
+  NR.Proofs.Front.validateIds_covers vehicles mats h
+
+theorem c16_accepted_matrix_ids_are_vehicles (vehicles : List String) (mats : List (List String))
+    (hnd : vehicles.Nodup) (h : validateIds vehicles mats = true) : ∀ ids ∈ mats, ∀ id ∈ ids, id ∈ vehicles :=
+  NR.Proofs.Front.validateIds_exact vehicles mats hnd h
+
+/-- Counting the ids is not enough (the seeded change C16-matrix-ids-only-counted): a stale id passes, a vehicle is
+left without a matrix. -/
+theorem c16_counting_ids_is_not_enough :
+    validateIdsG true ["v1", "v2"] [["v1"], ["v2-old"]] = true ∧ matrixOf [["v1"], ["v2-old"]] "v2" = none ∧
+    validateIds ["v1", "v2"] [["v1"], ["v2-old"]] = false := by decide
+
 /-! Non-vacuity -/
+example : validateIds ["v1", "v2", "v3"] [["v2"], ["v3", "v1"]] = true := by decide
+
 example : (⟨5, 2, 3⟩ : Layout).dim = 13 ∧ (⟨5, 2, 3⟩ : Layout).vehEnd 2 = 12 := by decide
 
 end NR.Props.C16
@@ -66,3 +85,6 @@ end NR.Props.C16
 #print axioms NR.Props.C16.c16_duration_tables_safe
 #print axioms NR.Props.C16.c16_plan_unit_tables
 #print axioms NR.Props.C16.c16_vehicle_tables
+#print axioms NR.Props.C16.c16_accepted_matrix_ids_cover_every_vehicle
+#print axioms NR.Props.C16.c16_accepted_matrix_ids_are_vehicles
+#print axioms NR.Props.C16.c16_counting_ids_is_not_enough
